@@ -110,7 +110,8 @@ def run(ctx):
         ctx.count("graph_edges_replayed", len(covered))
         for w in walks:
             states = [nodes[n] for n in w]
-            d, nb = rt.replay(consts, states)
+            # the threads' way to their first lock request is interleaved differently from behaviour to behaviour
+            d, nb = rt.replay(consts, states, start_rounds=[None, 0, 1, 2, 3, 4, 5, 6][replayed % 8])
             replayed += 1
             blocked_total += nb
             if first_walk is None and len(states) > 8:
